@@ -69,6 +69,20 @@ func vcScenC04(t *vcTrial) {
 		defer vcSetPlan(nil)
 	}
 
+	// "all kernel short-write/EAGAIN patterns": besides small socket buffers, netpoll's own
+	// sendmsg wrapper reports EAGAIN spuriously - nothing is transferred by such a call, exactly
+	// as with the real errno - so the hand-off to the poller happens at any stream position
+	faultPM := []int{0, 0, 50, 300}[r.intn(4)]
+	t.P("transient_errno_permille", faultPM)
+	if faultPM > 0 {
+		fp := vcTransientFaults(r.next(), faultPM)
+		vcSetFaults(fp)
+		defer func() {
+			vcSetFaults(nil)
+			t.Stat("transient_errnos_injected", int(fp.Fired()))
+		}()
+	}
+
 	var handlerReader *vcStreamReader
 	var handlerEOFSeen int32
 	hdone := make(chan struct{})
@@ -267,7 +281,7 @@ func vcScenC04(t *vcTrial) {
 	if total >= 64<<10 {
 		szc = "L"
 	}
-	t.Sig = fmt.Sprintf("%s/%s/snd=%s/rcv=%s/%s/%s/stall=%d/jit=%v", mode, network, vcBufClass(snd), vcBufClass(rcv), path, szc, stallPct, jitter)
+	t.Sig = fmt.Sprintf("%s/%s/snd=%s/rcv=%s/%s/%s/stall=%d/jit=%v/eagain=%v", mode, network, vcBufClass(snd), vcBufClass(rcv), path, szc, stallPct, jitter, faultPM > 0)
 	t.Nontrivial = (pollerFlush > 0 || multi > 0) && total >= 64<<10
 	if sender != nil {
 		t.P("writer_mix", sender.Mix)
